@@ -22,7 +22,7 @@ for f in files:
     mods.add(m)
 # demo files = untracked files
 rc, out = sh("git status --porcelain --untracked-files=all")
-demos = [l[3:] for l in out.splitlines() if l.startswith("??") and not l[3:].startswith("seed_")]
+demos = [l[3:] for l in out.splitlines() if l.startswith("??") and not l[3:].startswith(("seed_patch", "seed_meta"))]
 res = {"with_change_demo": None, "without_change_demo": None, "existing_tests_with_change": {}}
 rc1, o1 = sh(demo); res["with_change_demo"] = "FAIL" if rc1 != 0 else "PASS"
 rc, o = sh("git apply -R seed_patch.diff"); assert rc == 0, o
